@@ -88,6 +88,37 @@ class RecProbe(Op):
 
 class IsValid(RecProbe):
     name = "rvalid"
+    sibling = T.tp_sibling(3)
+    sibling_rate = 0.2
+
+    def gen(self, rng, tier, boost):
+        yield from RecProbe.gen(self, rng, tier, boost)
+        # midnights: series anchored at 00:00 or at the 24:00 spelling, stepping by whole days / weeks / months /
+        # years (or half days), probed at members written either way - the two spellings of a midnight are one
+        # instant with different seconds-of-day
+        n = 150 * boost if tier == "quick" else 1500 * boost
+        for _ in range(n):
+            m = gens.mode(rng)
+            base = R.gen_anchor(rng, m)
+            tzh, tzm = (base[7], base[8]) if rng.random() < 0.6 else gens.offset(rng)
+            day = (T.inst(m, base) // 86400) * 86400 - (3600 * tzh + 60 * tzm)      # a local midnight
+            anchor = T.tp_from_inst(m, day, base[0], tzh, tzm, use24=rng.random() < 0.5)
+            d = rng.choice([("U", 0, 0, 1, 0, 0, 0), ("U", 0, 0, 1, 0, 0, 0), ("W", 1), ("U", 0, 1, 0, 0, 0, 0),
+                            ("U", 1, 0, 0, 0, 0, 0), ("U", 0, 0, 0, 12, 0, 0), ("U", 0, 0, 2, 0, 0, 0)])
+            fmt = rng.choice([3, 3, 4])
+            reps = rng.choice([None, 3, 5, 12]) if R.is_exact(d) else None
+            if fmt == 3:
+                rec, info = (reps, anchor, d, None), dict(fmt=3, anchor=anchor, interval=d, reps=reps)
+            else:
+                rec, info = (reps, None, d, anchor), dict(fmt=4, anchor=anchor, interval=d, reps=reps)
+            series, _rev = R.expected_series(m, info, 6)
+            if not series:
+                continue
+            member = rng.choice(series)
+            pz = (tzh, tzm) if rng.random() < 0.7 else gens.offset(rng)
+            probe = T.tp_from_inst(m, T.inst(m, member) + rng.choice([0, 0, 0, 1, -1]), rng.choice([base[0], "c", "o", "w"]),
+                                   pz[0], pz[1], use24=rng.random() < 0.6)
+            yield (m, rec, tuple(sorted(info.items())), probe)
 
     def line(self, a):
         return "rvalid %s %d %s %s" % (a[0], fuel_for(a), R.rec_line(a[1]), T.tp_str(a[3]))
@@ -216,6 +247,8 @@ class Prev(Next):
 
 
 class FirstAfter(RecProbe):
+    sibling = T.tp_sibling(3)
+    sibling_rate = 0.2
     name = "rfirst"
     need_start = True
 
